@@ -3,6 +3,8 @@ package main
 import (
 	"fmt"
 	"go/token"
+	"go/types"
+	"reflect"
 	"sort"
 	"strings"
 
@@ -40,54 +42,72 @@ func ruleC19_1(c *Ctx) {
 	}
 	outer, _ := resolve(enc.Common().Args[0], enc).(*ssa.MakeMap)
 	if outer == nil {
-		c.bad(R, fn, "preimage map", enc.Pos(), "the hashed value is not a map literal: "+short(org(enc.Common().Args[0])))
-		return
-	}
-	want := map[string]string{"keytype": "p0.KeyType", "scheme": "p0.Scheme", "keyid_hash_algorithms": "p0.KeyIDHashAlgorithms"}
-	got := map[string]string{}
-	var inner *ssa.MakeMap
-	for _, r := range *outer.Referrers() {
-		if mu, ok := r.(*ssa.MapUpdate); ok && mu.Map == ssa.Value(outer) {
-			k, _ := constString(mu.Key)
-			if k == "keyval" {
-				inner, _ = resolve(mu.Value, mu).(*ssa.MakeMap)
-				got[k] = "map"
-			} else {
-				got[k] = org(mu.Value)
-			}
+		if !c.c19StructPreimage(R, fn, enc) {
+			c.bad(R, fn, "preimage", enc.Pos(), "the hashed value is neither a map literal nor a struct literal: "+short(org(enc.Common().Args[0])))
+			return
 		}
 	}
-	var keys []string
-	for k := range got {
-		keys = append(keys, k)
-	}
-	sort.Strings(keys)
-	c.check(strings.Join(keys, ",") == "keyid_hash_algorithms,keytype,keyval,scheme", R, fn, "preimage has exactly keytype, scheme, keyid_hash_algorithms, keyval", outer.Pos(), strings.Join(keys, ","), "hashed description has members {"+strings.Join(keys, ",")+"}")
-	for k, w := range want {
-		c.check(got[k] == w, R, fn, "preimage member "+k, outer.Pos(), w, "member "+k+" is fed from "+got[k])
-	}
-	if inner != nil {
-		var ik []string
-		okPub := false
-		for _, r := range *inner.Referrers() {
-			if mu, ok := r.(*ssa.MapUpdate); ok && mu.Map == ssa.Value(inner) {
+	if outer != nil {
+		want := map[string]string{"keytype": "p0.KeyType", "scheme": "p0.Scheme", "keyid_hash_algorithms": "p0.KeyIDHashAlgorithms"}
+		got := map[string]string{}
+		var inner *ssa.MakeMap
+		for _, r := range *outer.Referrers() {
+			if mu, ok := r.(*ssa.MapUpdate); ok && mu.Map == ssa.Value(outer) {
 				k, _ := constString(mu.Key)
-				ik = append(ik, k)
-				if k == "public" && org(mu.Value) == "p0.KeyVal.Public" {
-					okPub = true
+				if k == "keyval" {
+					inner, _ = resolve(mu.Value, mu).(*ssa.MakeMap)
+					got[k] = "map"
+				} else {
+					got[k] = org(mu.Value)
 				}
 			}
 		}
-		sort.Strings(ik)
-		c.check(okPub && strings.Join(ik, ",") == "public", R, fn, "keyval holds only the public half", inner.Pos(), "keyval:{public: k.KeyVal.Public}", "keyval members hashed into the id: {"+strings.Join(ik, ",")+"} (private material or certificate would change the id between halves)")
-	} else {
-		c.bad(R, fn, "keyval member", outer.Pos(), "keyval is not a nested map literal")
+		var keys []string
+		for k := range got {
+			keys = append(keys, k)
+		}
+		sort.Strings(keys)
+		c.check(strings.Join(keys, ",") == "keyid_hash_algorithms,keytype,keyval,scheme", R, fn, "preimage has exactly keytype, scheme, keyid_hash_algorithms, keyval", outer.Pos(), strings.Join(keys, ","), "hashed description has members {"+strings.Join(keys, ",")+"}")
+		for k, w := range want {
+			c.check(got[k] == w, R, fn, "preimage member "+k, outer.Pos(), w, "member "+k+" is fed from "+got[k])
+		}
+		if inner != nil {
+			var ik []string
+			okPub := false
+			for _, r := range *inner.Referrers() {
+				if mu, ok := r.(*ssa.MapUpdate); ok && mu.Map == ssa.Value(inner) {
+					k, _ := constString(mu.Key)
+					ik = append(ik, k)
+					if k == "public" && org(mu.Value) == "p0.KeyVal.Public" {
+						okPub = true
+					}
+				}
+			}
+			sort.Strings(ik)
+			c.check(okPub && strings.Join(ik, ",") == "public", R, fn, "keyval holds only the public half", inner.Pos(), "keyval:{public: k.KeyVal.Public}", "keyval members hashed into the id: {"+strings.Join(ik, ",")+"} (private material or certificate would change the id between halves)")
+		} else {
+			c.bad(R, fn, "keyval member", outer.Pos(), "keyval is not a nested map literal")
+		}
 	}
 	// sha256, hex, stored into KeyID
 	okStore := false
 	for _, b := range f.Blocks {
 		for _, in := range b.Instrs {
 			if st, ok := in.(*ssa.Store); ok && org(st.Addr) == "p0.KeyID" {
+				viaSumOf := func(v ssa.Value) bool {
+					return derives(v, func(v ssa.Value) bool {
+						k, ok := v.(*ssa.Call)
+						if !ok || calleeName(k) != "crypto/sha256.Sum256" {
+							return false
+						}
+						pc, idx := producer(k.Call.Args[0], k)
+						return pc == enc && idx == 0
+					}, false)
+				}
+				if hx, ok := isResultOf(st.Val, st, 0, "encoding/hex.EncodeToString"); ok {
+					okStore = viaSumOf(hx.Common().Args[0])
+					continue
+				}
 				sf, ok := isResultOf(st.Val, st, 0, "fmt.Sprintf")
 				if !ok {
 					continue
@@ -600,4 +620,143 @@ func ruleC19_6(c *Ctx) {
 		}
 		c.check(okLeaf, R, fname(g), "leaf = first certificate of the SVID, intermediates = the rest", g.Pos(), "Certificates[0] / Certificates[1:]", "the leaf certificate is not Certificates[0]")
 	}
+}
+
+// c19StructPreimage: the key-id preimage given as a struct literal. The JSON view of the struct type must have exactly
+// the members keytype, scheme, keyid_hash_algorithms, keyval, none of them omitted when empty (a nil or empty algorithm
+// list is part of the description), each fed from the receiver's namesake field; keyval is a struct literal that sets
+// only the member "public", from the receiver's public half, and whose other members are omitted when empty.
+func (c *Ctx) c19StructPreimage(R, fn string, enc ssa.CallInstruction) bool {
+	v := enc.Common().Args[0]
+	if mi, ok := v.(*ssa.MakeInterface); ok {
+		v = mi.X
+	}
+	litOf := func(v ssa.Value) *ssa.Alloc {
+		if u, ok := v.(*ssa.UnOp); ok && u.Op == token.MUL {
+			if al, ok := u.X.(*ssa.Alloc); ok && al.Comment == "complit" {
+				return al
+			}
+		}
+		return nil
+	}
+	al := litOf(v)
+	if al == nil {
+		return false
+	}
+	fieldStores := func(al *ssa.Alloc) map[string]ssa.Value {
+		out := map[string]ssa.Value{}
+		for _, r := range *al.Referrers() {
+			if fa, ok := r.(*ssa.FieldAddr); ok {
+				for _, rr := range *fa.Referrers() {
+					if st, ok := rr.(*ssa.Store); ok && st.Addr == fa {
+						out[fieldName(fa.X.Type(), fa.Field)] = st.Val
+					}
+				}
+			}
+		}
+		return out
+	}
+	type member struct {
+		field     string
+		omitempty bool
+		typ       types.Type
+	}
+	view := func(t types.Type) map[string]member {
+		st, ok := t.Underlying().(*types.Struct)
+		if !ok {
+			return nil
+		}
+		out := map[string]member{}
+		for i := 0; i < st.NumFields(); i++ {
+			f := st.Field(i)
+			if !f.Exported() {
+				continue
+			}
+			tag := reflect.StructTag(st.Tag(i)).Get("json")
+			name, opts, _ := strings.Cut(tag, ",")
+			if name == "-" {
+				continue
+			}
+			if name == "" {
+				name = f.Name()
+			}
+			out[name] = member{f.Name(), strings.Contains(opts, "omitempty") || strings.Contains(opts, "omitzero"), f.Type()}
+		}
+		return out
+	}
+	outerT := al.Type().(*types.Pointer).Elem()
+	mv := view(outerT)
+	var names []string
+	for n := range mv {
+		names = append(names, n)
+	}
+	sort.Strings(names)
+	c.check(strings.Join(names, ",") == "keyid_hash_algorithms,keytype,keyval,scheme", R, fn, "preimage has exactly keytype, scheme, keyid_hash_algorithms, keyval", al.Pos(), strings.Join(names, ","), "hashed description has members {"+strings.Join(names, ",")+"}")
+	stores := fieldStores(al)
+	want := map[string]string{"keytype": "p0.KeyType", "scheme": "p0.Scheme", "keyid_hash_algorithms": "p0.KeyIDHashAlgorithms"}
+	for _, n := range []string{"keyid_hash_algorithms", "keytype", "scheme"} {
+		m, ok := mv[n]
+		if !ok {
+			continue
+		}
+		c.check(!m.omitempty, R, fn, "preimage member "+n+" is always present", al.Pos(), "no omitempty", "member "+n+" is left out of the description when it is empty (omitempty): a key with a nil or empty value gets an id that is not the hash of its description, and nil / empty / absent collapse into one id")
+		got := "<not set>"
+		if sv, ok := stores[m.field]; ok {
+			got = org(sv)
+		}
+		c.check(got == want[n], R, fn, "preimage member "+n, al.Pos(), want[n], "member "+n+" is fed from "+got)
+	}
+	if m, ok := mv["keyval"]; ok {
+		c.check(!m.omitempty, R, fn, "preimage member keyval is always present", al.Pos(), "no omitempty", "member keyval is left out when empty")
+		var innerT types.Type
+		var is map[string]ssa.Value
+		if inner := litOf(stores[m.field]); inner != nil {
+			innerT, is = inner.Type().(*types.Pointer).Elem(), fieldStores(inner)
+		} else {
+			// the nested literal is written in place: stores into &outer.keyval.<member>
+			for _, r := range *al.Referrers() {
+				fa, ok := r.(*ssa.FieldAddr)
+				if !ok || fieldName(fa.X.Type(), fa.Field) != m.field {
+					continue
+				}
+				for _, rr := range *fa.Referrers() {
+					fa2, ok := rr.(*ssa.FieldAddr)
+					if !ok {
+						continue
+					}
+					for _, r3 := range *fa2.Referrers() {
+						if st, ok := r3.(*ssa.Store); ok && st.Addr == fa2 {
+							if is == nil {
+								is = map[string]ssa.Value{}
+							}
+							is[fieldName(fa2.X.Type(), fa2.Field)] = st.Val
+							innerT = m.typ
+						}
+					}
+				}
+			}
+		}
+		okInner := innerT != nil
+		detail := "keyval is not a struct literal"
+		if innerT != nil {
+			iv := view(innerT)
+			var set []string
+			for n, im := range iv {
+				if _, stored := is[im.field]; stored {
+					set = append(set, n)
+				} else if !im.omitempty {
+					okInner = false
+					detail = "keyval member " + n + " is not set but always encoded"
+				}
+			}
+			sort.Strings(set)
+			pub, hasPub := iv["public"]
+			if strings.Join(set, ",") != "public" || !hasPub || pub.omitempty || org(is[pub.field]) != "p0.KeyVal.Public" {
+				okInner = false
+				detail = "keyval members set: {" + strings.Join(set, ",") + "}"
+			}
+		}
+		c.check(okInner, R, fn, "keyval holds only the public half", al.Pos(), "keyval:{public: k.KeyVal.Public}, every other member omitted when empty", detail+" (private material or certificate would change the id between halves)")
+	}
+	return true
 }
